@@ -37,6 +37,7 @@ type Exec struct {
 	NoInline map[*ssa.Function]bool
 	// PanicIsEvent: record panics as events and stop the path
 	WatchEdges map[edge]bool
+	inInitGlobal bool
 	LazyPtr    bool // materialise unknown pointer fields on first load
 	// WidenAtEntry: explore, at every loop entry, one generic iteration (heap forgotten, loop phis unknown) that
 	// subsumes all iterations; concrete unrolling beyond Unroll visits is then simply cut. Keeps path counts linear.
@@ -431,6 +432,9 @@ func (ex *Exec) globalObj(st *State, g *ssa.Global) int {
 			ex.constObj[id] = true
 		} else if ex.sentinelErr(g) {
 			st.heap[id] = &IfaceV{Unk: true, NonNil: true}
+			ex.constObj[id] = true
+		} else if v, ok := ex.initGlobal(st, g); ok {
+			st.heap[id] = v
 			ex.constObj[id] = true
 		} else {
 			st.heap[id] = ex.topOf(st, g.Type().(*types.Pointer).Elem(), "g:"+g.Name())
